@@ -107,6 +107,7 @@ class Prov:
         self._sub = False
         self.variant_fields = False
         self.with_base = False
+        self.field_pick = "first"
 
     def _root_args(self, l, depth=0):
         """argument locals a reference-typed local ultimately points into (through copies / reborrows /
@@ -161,20 +162,24 @@ class Prov:
         l = place["l"]
         # a field of an ADT reached through the place: the origin is that field (first ADT field wins)
         tys = place_types(body, place)
+        cands = []
         for i, p in enumerate(projs):
             if p != "*" and p["k"] == "f":
                 base = tys[i]
-                if base["k"] == "adt" and (i == 0 or projs[i - 1] == "*" or True):
+                if base["k"] == "adt":
                     # only treat as a *stored field* when the base is behind a reference/argument,
                     # i.e. not a locally built aggregate
                     if self._is_external_base(l, projs[:i]):
-                        nm = p["n"]
-                        if self.variant_fields and i > 0 and projs[i - 1] != "*" and projs[i - 1]["k"] == "d":
-                            nm = "%s.%s" % (projs[i - 1]["v"], p["n"])
-                        if self.with_base:
-                            roots = self._root_args(l)
-                            return {("field", base["d"], nm, r) for r in roots} or {("field", base["d"], nm, None)}
-                        return {("field", base["d"], nm)}
+                        cands.append((i, p, base))
+        if cands:
+            i, p, base = cands[-1] if self.field_pick == "last" else cands[0]
+            nm = p["n"]
+            if self.variant_fields and i > 0 and projs[i - 1] != "*" and projs[i - 1]["k"] == "d":
+                nm = "%s.%s" % (projs[i - 1]["v"], p["n"])
+            if self.with_base:
+                roots = self._root_args(l)
+                return {("field", base["d"], nm, r) for r in roots} or {("field", base["d"], nm, None)}
+            return {("field", base["d"], nm)}
         if not projs:
             return self._origins_local(l, through_arith, seen)
         # projections of a local aggregate / call result
